@@ -71,6 +71,18 @@ def rust_str(lit):
     return bytes(lit, "utf-8").decode("unicode_escape") if "\\" in lit else lit
 
 
+def huffman_root(repo):
+    """source directory of the httlib-huffman version the workspace links (Cargo.lock)"""
+    lock = rd(repo, "Cargo.lock")
+    m = need(re.search(r'name = "httlib-huffman"\nversion = "([^"]+)"', lock), "Cargo.lock: httlib-huffman")
+    ver = m.group(1)
+    import glob
+    cands = glob.glob(os.path.expanduser(f"~/.cargo/registry/src/*/httlib-huffman-{ver}"))
+    if not cands:
+        raise Missing(f"httlib-huffman-{ver} sources not found in the cargo registry")
+    return cands[0]
+
+
 def main():
     repo = sys.argv[1]
     outdir = sys.argv[2]
@@ -238,13 +250,32 @@ def main():
     ex["RESERVED_HEADERS"] = reserved_h
     L.append("def RESERVED_HEADERS : List String := [" + ", ".join(f'"{h}"' for h in reserved_h) + "]")
     m = need(re.search(r"let headers = \[(.*?)\]\s*\.into_iter\(\)", s, re.S), f"{rel}: SessionRequest::new header list")
-    pairs = re.findall(r'\("([^"]+)", ("[^"]*"|[^)]+)\)', m.group(1))
+    pairs = re.findall(r'\("([^"]+)", ("[^"]*"|[^,\n]+?)\),?\n', m.group(1))
     req = []
     for k, v in pairs:
         v = v.strip()
         req.append((k, v[1:-1] if v.startswith('"') else "<" + v + ">"))
     ex["REQUEST_HEADERS"] = req
     L.append("def REQUEST_HEADERS : List (String × String) := [" + ", ".join(f'("{k}", "{v}")' for k, v in req) + "]")
+
+    def lb(t):
+        return "[" + ", ".join(str(b) for b in t.encode("utf-8")) + "]"
+    L.append("def RESERVED_HEADERS_BYTES : List (List UInt8) := [" + ", ".join(lb(h) for h in reserved_h) + "]")
+    L.append("def REQUEST_HEADERS_BYTES : List (List UInt8 × List UInt8) := [" +
+             ", ".join(f"({lb(k)}, {lb(v) if not v.startswith('<') else '[]'})" for k, v in req) + "]")
+    # SessionRequest::try_from: the checks in source order (key, expected literal or none)
+    body = need(re.search(r"impl TryFrom<Headers> for SessionRequest \{(.*?)\n\}\n", s, re.S), f"{rel}: SessionRequest::try_from").group(1)
+    checks = []
+    for mm in re.finditer(r'\.get\("([^"]+)"\)\s*\.ok_or\(HeadersParseError::(\w+)\)\?(\s*!= "([^"]*)"\s*\{\s*return Err\(HeadersParseError::(\w+)\))?', body):
+        checks.append((mm.group(1), mm.group(2), mm.group(4), mm.group(5)))
+    if [c[0] for c in checks] != [":method", ":scheme", ":protocol", ":authority", ":path"]:
+        raise Missing(f"{rel}: SessionRequest::try_from checks changed: {checks}")
+    ex["REQUEST_TRYFROM_CHECKS"] = checks
+    L.append("/-- `SessionRequest::try_from`: (field, required value or [] when only presence is required) in source order -/")
+    L.append("def REQUEST_TRYFROM_CHECKS : List (List UInt8 × Option (List UInt8)) := [" +
+             ", ".join(f"({lb(c[0])}, {'some ' + lb(c[2]) if c[2] is not None else 'none'})" for c in checks) + "]")
+    m2 = need(re.search(r'\.get\(":status"\)\s*\.ok_or\(HeadersParseError::MissingStatusCode\)', s), f"{rel}: SessionResponse::try_from :status")
+    L.append("def STATUS_HEADER_BYTES : List UInt8 := " + lb(":status"))
 
     # ---- lib.rs
     rel = "wtransport-proto/src/lib.rs"
@@ -345,6 +376,37 @@ def main():
     Q.append("def QPACK_ENC_VALUE_N : Nat := 7")
     Q.append("end Generated")
 
+    # ---- httlib-huffman (the version the code links): ENCODE_TABLE and the 1-bit DECODE_TABLE
+    hroot = huffman_root(repo)
+    enc_src = open(os.path.join(hroot, "src", "encoder", "table.rs"), encoding="utf-8").read()
+    m = need(re.search(r"pub const ENCODE_TABLE: \[\(u8, u32\); (\d+)\] = \[(.*?)\n\];", enc_src, re.S), "httlib-huffman: ENCODE_TABLE")
+    enc_rows = re.findall(r"\((\d+), (0x[0-9a-fA-F]+)\)", m.group(2))
+    if len(enc_rows) != num(m.group(1)) or len(enc_rows) != 257:
+        raise Missing(f"httlib-huffman: ENCODE_TABLE rows {len(enc_rows)}")
+    dec_src = open(os.path.join(hroot, "src", "decoder", "table1.rs"), encoding="utf-8").read()
+    m = need(re.search(r"pub const DECODE_TABLE: \[\[\(Option<u8>, Option<u16>, u8\); 2\]; (\d+)\] = \[(.*)\n\];", dec_src, re.S), "httlib-huffman: DECODE_TABLE")
+    cells = re.findall(r"\((Some\((\d+)\)|None), (Some\((\d+)\)|None), (\d+)\)", m.group(2))
+    if len(cells) != 2 * num(m.group(1)):
+        raise Missing(f"httlib-huffman: DECODE_TABLE cells {len(cells)}")
+    ex["HUFFMAN_CRATE"] = os.path.basename(hroot)
+    ex["HUFFMAN_ENCODE_ROWS"] = len(enc_rows)
+    ex["HUFFMAN_DECODE_STATES"] = len(cells) // 2
+    H = ["-- generated by tools/gen_lean.py from the linked httlib-huffman crate — do not edit",
+         "namespace Generated",
+         "/-- `httlib_huffman::encoder::table::ENCODE_TABLE`: (code length, code) for symbols 0..=256 -/",
+         "def HUFFMAN_ENCODE : List (Nat × Nat) := [" + ", ".join(f"({l}, {int(c, 16)})" for l, c in enc_rows) + "]",
+         "/-- `httlib_huffman::decoder::table1::DECODE_TABLE`: per state, for bit 0 and bit 1:",
+         "(next state, emitted symbol, leftover) with `none` as 65535 -/",
+         "def HUFFMAN_DECODE1 : List ((Nat × Nat × Nat) × (Nat × Nat × Nat)) := ["]
+
+    def cell(c):
+        nxt = c[1] if c[0] != "None" else "65535"
+        asc = c[3] if c[2] != "None" else "65535"
+        return f"({nxt}, {asc}, {c[4]})"
+    H.append(",\n".join(f"  ({cell(cells[2 * i])}, {cell(cells[2 * i + 1])})" for i in range(len(cells) // 2)))
+    H.append("]")
+    H.append("end Generated")
+
     hdr = ["-- generated by tools/gen_lean.py from /repo sources — do not edit", "namespace Generated"]
     os.makedirs(outdir, exist_ok=True)
 
@@ -360,6 +422,7 @@ def main():
 
     write_if_changed(os.path.join(outdir, "Consts.lean"), "\n".join(hdr + L + ["end Generated", ""]))
     write_if_changed(os.path.join(outdir, "QpackTable.lean"), "\n".join(Q) + "\n")
+    write_if_changed(os.path.join(outdir, "Huffman.lean"), "\n".join(H) + "\n")
     if jsonout:
         with open(jsonout, "w") as f:
             json.dump(ex, f, indent=1, default=str)
